@@ -230,6 +230,35 @@ func (in *Interp) installEnvStubs() {
 		in.schedule(true)
 		return IfaceV{}
 	}
+	// a request working on the shard: the handle must be open when it starts and stay open
+	// until it is done (Close checks the users); the work itself is a scheduling point
+	use := func(in *Interp, fn *ssa.Function, a []Value) Value {
+		p, ok := a[0].(PtrV)
+		if !ok || p.loc == nil {
+			in.abort("panic", "request on a nil shard")
+		}
+		h := in.shardHandles[p.loc]
+		if h == nil {
+			return in.callBody(fn, a) // a real shard object (shard-level obligations)
+		}
+		if !h.open {
+			in.finding("assert", "shard-used-after-it-was-closed", nil)
+		}
+		h.users++
+		in.schedule(true)
+		if !h.open {
+			in.finding("assert", "shard-closed-while-a-request-is-using-it", nil)
+		}
+		h.users--
+		res := fn.Signature.Results()
+		if res.Len() == 1 {
+			return zero(res.At(0).Type())
+		}
+		return zero(res)
+	}
+	for _, m := range []string{"InsertPoints", "UpdatePoints", "DeletePoints", "SearchPoints", "Info"} {
+		S["(*"+sh+".Shard)."+m] = use
+	}
 	in.intrinsics["vhandleopen"] = func(in *Interp, args []Value) Value {
 		p, ok := args[0].(PtrV)
 		if !ok || p.loc == nil {
